@@ -51,6 +51,24 @@ func loopsOf(fn *ssa.Function) []loopInfo {
 						}
 					}
 				}
+				// classic counted loop: i = phi[0, i+1] in the header, which branches on i < len(X)
+				if li.base == nil {
+					for _, in := range s.Instrs {
+						phi, ok := in.(*ssa.Phi)
+						if !ok {
+							break
+						}
+						for _, r := range *phi.Referrers() {
+							cmp, ok := r.(*ssa.BinOp)
+							if !ok || cmp.Op != token.LSS || cmp.X != ssa.Value(phi) || cmp.Block() != s {
+								continue
+							}
+							if call, ok := cmp.Y.(*ssa.Call); ok && builtinName(call) == "len" && classicCounterOf(phi, call.Call.Args[0]) {
+								li.base, li.key = call.Call.Args[0], phi
+							}
+						}
+					}
+				}
 				out = append(out, li)
 			}
 		}
